@@ -254,13 +254,13 @@ def build_cache(ctx):
     return L, ops, flav
 
 
-def build_undel(ctx):
+def build_undel(ctx, kind=None, flav=None):
     """undelete scenarios (checks/undel.py): the blocks of the deleted entry still free or taken meanwhile by a bystander (the
     extension block below the header, in a hole a new file takes first); then calls on the undeleted entry and new files"""
     from . import undel
     rng = ctx.rng
-    flav = rng.choice(gen.FLAVOURS)
-    setup, seq, meta = undel.scenario(rng, flav)
+    flav = rng.choice(gen.FLAVOURS) if flav is None else flav
+    setup, seq, meta = undel.scenario(rng, flav, kind)
     L = gen.dev_create("DD", flav) + ["mountdev 0", "mount 0 0"] + setup + ["dump $W/start", "wlog $W/wlog full"]
     ops = []
     for cmd in seq:
@@ -280,7 +280,14 @@ def run(ctx):
     nm = 6 if ctx.tier == "quick" else 100      # volumes with three bitmap pages: most updates dirty one page, not the last
     for hi in range(nh + nr + nc + nm + nu):
         if hi >= nh + nr + nc + nm:
-            L, ops, flav = build_undel(ctx)
+            # every scenario kind on a directory-cache flavour and on one without, then random ones (a sampled kind is a detection that
+            # comes and goes with the random stream)
+            ui = hi - (nh + nr + nc + nm)
+            from . import undel as _u
+            if ui < 2 * len(_u.KINDS):
+                L, ops, flav = build_undel(ctx, _u.KINDS[ui // 2], ctx.rng.choice([4, 5]) if ui % 2 else ctx.rng.choice([0, 1, 2, 3]))
+            else:
+                L, ops, flav = build_undel(ctx)
         elif hi >= nh + nr + nc:
             L, ops, flav = build(ctx, kind="HF:12200")
         else:
